@@ -184,6 +184,9 @@ func runC03(h *hz.H) {
 	if h.Thorough() {
 		limit = 6000000
 	}
+	if os.Getenv("VERIF_LITE") != "" {
+		limit = 3000
+	}
 	type plan struct {
 		md    protoreflect.MessageDescriptor
 		recs  []enum.Rec
